@@ -508,6 +508,15 @@ func runC18Case(c cfg, seed uint64, f fault, keys map[string]struct{}) (reached 
 		}
 		closePeer(nc)
 	}
+	// the failed connection has left the engine's books: the registry counts exactly the connections that are open
+	if ok, _ := waitCondQuick(3*time.Second, func() bool {
+		return int64(life.eng.CountConnections()) == mon.opened.Load()-mon.closed.Load()
+	}); !ok {
+		time.Sleep(20 * time.Millisecond)
+		if got, want := int64(life.eng.CountConnections()), mon.opened.Load()-mon.closed.Load(); got != want {
+			viol("engine counts a connection that is not open", fmt.Sprintf("CountConnections()=%d, %d opened - %d closed = %d", got, mon.opened.Load(), mon.closed.Load(), want))
+		}
+	}
 	for _, a := range vsys.Alarms() {
 		res.Violate(fmt.Sprintf("C07 %s op=%s site=%s", a.Kind, a.Op, a.Site), fmt.Sprintf("config %s, fault %s: %s on fd %d: %s", c, f, a.Kind, a.FD, a.Detail), map[string]any{"config": c.String(), "fault": f.String(), "shim_log": vsys.LogTail(40)})
 	}
